@@ -32,6 +32,7 @@ type vpScan struct {
 	nextFirst int
 	nextSecond int
 	closed1, closed2 bool
+	ordered   bool
 	fault     int // see VPH_scan
 	faultPos  int
 }
@@ -76,6 +77,27 @@ func vpInstallScanStubs(sc *vpScan) {
 	})
 	vp_Stub("(*github.com/github/git-sizer/git.ObjectIter).Close", func(it *git.ObjectIter) { sc.closed1 = true })
 	vp_Stub("(*github.com/github/git-sizer/git.ObjectIter).Next", func(it *git.ObjectIter) (git.BatchHeader, bool, error) {
+		if !sc.ordered {
+			sc.ordered = true
+			if !vpRevListGuaranteesOrder(sc.commands) {
+				// git promises "no commit before all of its children" only for
+				// --date-order/--topo-order without options that override the order;
+				// otherwise the environment may list commits oldest first.
+				var cs []*vpObj
+				for _, o := range sc.listing {
+					if o.typ == "commit" {
+						cs = append(cs, o)
+					}
+				}
+				k := len(cs) - 1
+				for idx, o := range sc.listing {
+					if o.typ == "commit" {
+						sc.listing[idx] = cs[k]
+						k--
+					}
+				}
+			}
+		}
 		i := sc.nextFirst
 		if sc.fault == vpfFirstErr && i == sc.faultPos {
 			return git.BatchHeader{ObjectType: "missing"}, false, errVPFault
@@ -135,6 +157,26 @@ func vpInstallScanStubs(sc *vpScan) {
 }
 
 func vpHex(o git.OID) string { return o.String() }
+
+// vpRevListGuaranteesOrder: the part of git's contract the commit loop relies on.
+func vpRevListGuaranteesOrder(commands [][]string) bool {
+	for _, c := range commands {
+		if len(c) == 0 || c[0] != "rev-list" {
+			continue
+		}
+		ordered := false
+		for _, a := range c[1:] {
+			switch a {
+			case "--date-order", "--topo-order":
+				ordered = true
+			case "--use-bitmap-index", "--reverse", "--no-walk", "--unsorted-input", "--author-date-order":
+				return false
+			}
+		}
+		return ordered
+	}
+	return false
+}
 
 // vpScript builds the scripted repository: two blobs, one tree, 0..2 commits, 0..1 tag.
 func vpScript(sc *vpScan, ncommits int, withTag bool, s0, s1 uint32) {
